@@ -33,7 +33,7 @@ var R = hx.NewRecorder("C08", "cases = attacker catalogue x GMSSL suite x client
 func TestMain(m *testing.M) {
 	for _, k := range []string{"sign_cert_wrong_key", "enc_cert_wrong_key", "untrusted", "expired", "future", "wrongname", "enc_expired", "rsa_sign_cert", "rsa_enc_cert", "swapped", "client_wrong_key", "client_untrusted", "client_expired",
 		"ske_omitted", "ske_other_key", "ske_other_randoms", "ske_other_enccert", "ske_garbage", "cv_omitted", "cv_other_key", "cv_replayed", "cv_chain_confusion", "ske_sig_not_der", "cv_sig_not_der", "finished_wrong",
-		"mitm_byte", "mitm_suites", "mitm_ske_replay", "mitm_cke_replay", "mitm_cert_swap", "mitm_cert_attacker", "baseline", "tls_server_name", "enc_cert_twice", "sign_cert_twice", "sign_cert_enc_key", "ecdhe_ske_other_key", "resumption_other_name", "untrusted_with_own_ca"} {
+		"mitm_byte", "mitm_suites", "mitm_ske_replay", "mitm_cke_replay", "mitm_cert_swap", "mitm_cert_attacker", "baseline", "tls_server_name", "enc_cert_twice", "sign_cert_twice", "sign_cert_enc_key", "ecdhe_ske_other_key", "resumption_other_name", "untrusted_with_own_ca", "declined_resumption_reverifies"} {
 		R.Require("attack:" + k)
 	}
 	for _, k := range []string{"rsa", "p224", "p256", "p384", "p521"} {
@@ -743,6 +743,67 @@ func TestC08_ResumptionUnderAnotherName(t *testing.T) {
 				}
 				R.Case(true, hx.HashKey("resname", mode, sameAddr, second), "attack:resumption_other_name", map[bool]string{true: "name_ok", false: "name_mismatch"}[valid])
 			}
+		}
+	}
+}
+
+// A cached session is no licence to skip verification in a FULL handshake: the server no longer knows the ticket (new
+// ticket keys, same certificates) and the client's clock has moved past the certificates' validity, or its trust anchors
+// have been replaced - the full handshake that follows the declined resumption must fail like a first contact would.
+func TestC08_DeclinedResumptionReverifies(t *testing.T) {
+	p := tlsx.GetPKI()
+	n := 0
+	for _, mode := range []string{"gm", "tls"} {
+		for _, change := range []string{"clock_past_expiry", "roots_replaced", "none"} {
+			n++
+			id := fmt.Sprint("drr", n)
+			cache := gmtls.NewLRUClientSessionCache(4)
+			mk := func(k int, ticketKey byte) (*gmtls.Config, *gmtls.Config) {
+				var cc, sc *gmtls.Config
+				if mode == "gm" {
+					cc, sc = tlsx.GMClient(p, fmt.Sprint("c", id, k)), tlsx.GMServer(p, fmt.Sprint("s", id, k))
+					sc.CipherSuites = []uint16{tlsx.GMECCSM4CBCSM3, tlsx.GMECCSM4GCMSM3}
+				} else {
+					cc, sc = tlsx.TLSClient(p, fmt.Sprint("c", id, k)), tlsx.TLSServer(p, p.RSASrv, fmt.Sprint("s", id, k))
+					sc.CipherSuites = []uint16{0xc02f, 0xc014}
+				}
+				cc.ClientSessionCache = cache
+				sc.SetSessionTicketKeys([][32]byte{{ticketKey, 1, byte(n)}})
+				return cc, sc
+			}
+			cc, sc := mk(1, 1)
+			if r := tlsx.Run(cc, sc, tlsx.Script{ClientSend: []byte("a"), ServerSend: []byte("b")}); r.Client.HSErr != nil || r.Server.HSErr != nil {
+				t.Fatalf("harness: first connection failed: %s", r.Describe())
+			}
+			cc, sc = mk(2, 2) // a restarted server: other ticket keys, the same certificates
+			switch change {
+			case "clock_past_expiry":
+				cc.Time = func() time.Time { return tlsx.Now.Add(5 * 365 * 24 * time.Hour) }
+			case "roots_replaced":
+				cc.RootCAs = gx.NewCertPool()
+				cc.RootCAs.AddCert(p.SM2Root2.Cert)
+			}
+			r := tlsx.Run(cc, sc, tlsx.Script{ClientSend: []byte("secret"), ServerSend: []byte("reply")})
+			desc := fmt.Sprintf("%s client with a cached session reconnects to a server that declines the ticket; change on the client side: %s: %s", mode, change, r.Describe())
+			if r.Client.Panic != nil || r.Server.Panic != nil {
+				t.Fatalf("panic\n%s", desc)
+			}
+			if r.Client.State.DidResume {
+				t.Fatalf("harness: the session was resumed although the ticket keys differ\n%s", desc)
+			}
+			if change == "none" {
+				if r.Client.HSErr != nil || r.Server.HSErr != nil {
+					t.Fatalf("the silent fall-back to a full handshake failed (control)\n%s", desc)
+				}
+			} else {
+				if r.Client.HSErr == nil {
+					t.Fatalf("the client COMPLETED a full handshake with certificates it can no longer accept (%s)\n%s", change, desc)
+				}
+				if len(r.Server.Received) > 0 {
+					t.Fatalf("client data reached a server it must not accept\n%s", desc)
+				}
+			}
+			R.Case(true, hx.HashKey("drr", mode, change), "attack:declined_resumption_reverifies")
 		}
 	}
 }
